@@ -157,6 +157,9 @@ func (fa *FuncAnalysis) lits(cond ssa.Value, truth bool, depth int) []Lit {
 			if a.IsConst("nil") {
 				return []Lit{{&Term{Op: "isnil", Args: []*Term{b}, V: x}, eq}}
 			}
+			if out := fa.phiConstCmp(x, eq, depth); out != nil {
+				return append([]Lit{{&Term{Op: "eq", Args: []*Term{a, b}, V: x}, eq}}, out...)
+			}
 			if b.IsConst("true") {
 				return fa.lits(x.X, eq, depth+1)
 			}
@@ -190,12 +193,56 @@ func (fa *FuncAnalysis) lits(cond ssa.Value, truth bool, depth int) []Lit {
 		}
 		if n == 1 {
 			out = append(out, fa.lits(other, truth, depth+1)...)
-			pred := x.Block().Preds[otherIdx]
-			out = append(out, fa.controlLits(pred, depth+1)...)
+			out = append(out, fa.incomingLits(x.Block(), otherIdx, depth+1)...)
 		}
 		return out
 	}
 	return []Lit{{p.T(cond), truth}}
+}
+
+// incomingLits: literals that hold when block b is entered through predecessor #pi.
+func (fa *FuncAnalysis) incomingLits(b *ssa.BasicBlock, pi int, depth int) []Lit {
+	pred := b.Preds[pi]
+	out := fa.controlLits(pred, depth)
+	if iff := blockIf(pred); iff != nil && len(pred.Succs) == 2 && pred.Succs[0] != pred.Succs[1] {
+		for si, s := range pred.Succs {
+			if s == b {
+				out = append(out, fa.lits(iff.Cond, si == 0, depth+1)...)
+			}
+		}
+	}
+	return out
+}
+
+// phiConstCmp: `phi(c1..cn) == c` (all constants): the comparison is decided by the
+// edge through which the phi's block was entered, so it implies that edge's literals.
+func (fa *FuncAnalysis) phiConstCmp(x *ssa.BinOp, eq bool, depth int) []Lit {
+	phi, ok := x.X.(*ssa.Phi)
+	k, ok2 := x.Y.(*ssa.Const)
+	if !ok || !ok2 {
+		phi, ok = x.Y.(*ssa.Phi)
+		k, ok2 = x.X.(*ssa.Const)
+		if !ok || !ok2 {
+			return nil
+		}
+	}
+	if k.Value == nil {
+		return nil
+	}
+	var match []int
+	for i, e := range phi.Edges {
+		c, ok := e.(*ssa.Const)
+		if !ok || c.Value == nil {
+			return nil
+		}
+		if (c.Value.ExactString() == k.Value.ExactString()) == eq {
+			match = append(match, i)
+		}
+	}
+	if len(match) != 1 {
+		return nil
+	}
+	return fa.incomingLits(phi.Block(), match[0], depth+1)
 }
 
 // controlLits: literals that hold whenever block b is reached (conditions of
